@@ -99,6 +99,31 @@ def _sub(t):
                 yield from _sub(x)
 
 
+def index_range_of(t):
+    """x if t is the range `0..x.len()`."""
+    if isinstance(t, tuple) and t and t[0] == "struct" and last(t[1]) == "Range":
+        f = dict(t[2])
+        a, b = f.get("start"), f.get("end")
+        if a is not None and b is not None and a[0] == "lit" and not isinstance(a[1], bool) and a[1] == 0 and b[0] == "call" and isinstance(b[1], str) \
+                and (b[1] == "#len" or last(b[1]) == "len") and len(b[2]) == 1:
+            return strip_adapters(b[2][0])
+    return None
+
+
+def fallible_leaves(t, which, depth=0):
+    """The value is a case split whose leaves are Ok(..)/Err(..) (which == "ok") or Some(..)/None constructors."""
+    names = ("Ok", "Err") if which == "ok" else ("Some", "None")
+    if not isinstance(t, tuple) or not t or depth > 12:
+        return False
+    if t[0] == "ctor":
+        return last(t[1]) in names
+    if t[0] == "ite":
+        return fallible_leaves(t[2], which, depth + 1) and fallible_leaves(t[3], which, depth + 1)
+    if t[0] == "switch":
+        return bool(t[2]) and all(fallible_leaves(v, which, depth + 1) for _, v in t[2])
+    return False
+
+
 class Normalizer:
     def __init__(self):
         self.memo = {}
@@ -139,6 +164,19 @@ class Normalizer:
         if k == "call" and isinstance(t[1], str):
             path, args = t[1], t[2]
             l = last(path)
+            if l == "next" and len(args) == 1:
+                # the two pieces of `x.splitn(2, P)`: x[..i] and x[i+1..] with i the first position of P (the whole of x when there is none)
+                a0 = args[0]
+                second = a0[0] == "mut" and a0[2][0] == "call" and last(a0[2][1]) == "next" and not a0[2][2]
+                h = a0[1] if second else a0
+                if h[0] == "hof" and h[1] == "splitn" and len(h) > 4 and tuple(h[4]) == (("lit", _int(2)),):
+                    x = strip_adapters(h[2])
+                    pos = ("hof", "position", ("call", "core::slice::<impl [T]>::iter", (x,)), h[3], ())
+                    found, i = M(pos, "some"), ("proj", pos, SOME, 0)
+                    if not second:
+                        return ("ctor", SOME, (("ite", found, ("index", x, ("struct", "std::ops::RangeTo", (("end", i),))), x),))
+                    return ("ite", found, ("ctor", SOME, (("index", x, ("struct", "std::ops::RangeFrom", (("start", self.rewrite(("bin", "+", i, ("lit", _int(1))))),))),)),
+                            ("ctor", "std::prelude::v1::None", ()))
             if l == "is_some" and len(args) == 1:
                 return M(args[0], "some")
             if l == "is_none" and len(args) == 1:
@@ -166,12 +204,23 @@ class Normalizer:
                     return acc
             if l == "len" and len(args) == 1 and path != "#len" and any(c in path for c in ("slice", "Vec", "vec::", "[T]")):
                 return ("call", "#len", (strip_adapters(args[0]),))
+            if l == "ok_or" and len(args) == 2 and "Option" in path:
+                return self.rewrite(("ite", self.rewrite(M(args[0], "some")), ("ctor", OK, (self.proj(args[0], SOME, 0),)), ("ctor", "std::prelude::v1::Err", (args[1],))))
             if l == "unwrap_or" and len(args) == 2 and ("Option" in path or "Result" in path):
                 which = "some" if "Option" in path else "ok"
                 return self.rewrite(("ite", self.rewrite(M(args[0], which)), self.proj(args[0], SOME if which == "some" else OK, 0), args[1]))
             if l == "is_empty" and len(args) == 1 and path != EMPTY and any(c in path for c in ("slice", "Vec", "vec::", "str", "String", "collections", "HashMap", "HashSet", "BTree", "[T]")):
-                return ("call", EMPTY, (strip_adapters(args[0]),))
-            if l in ("get", "get_mut") and len(args) == 2 and is_map_path(path):
+                return self.rewrite(("call", EMPTY, (strip_adapters(args[0]),)))
+            if path == EMPTY and len(args) == 1 and args[0][0] == "index" and args[0][2][0] == "struct" and last(args[0][2][1]) == "RangeTo":
+                # x[..i] is empty iff i == 0
+                e_ = dict(args[0][2][2]).get("end")
+                if e_ is not None:
+                    return self.rewrite(("bin", "==", e_, ("lit", _int(0))))
+            if l in ("swap_remove", "remove") and len(args) == 2 and any(c in path for c in ("vec::Vec", "Vec<", "VecDeque")) and not is_map_path(path):
+                # the value returned by `v.swap_remove(i)` / `v.remove(i)` is the element v[i] (what is left in v is an effect on v)
+                return self.rewrite(("index", args[0], args[1]))
+            if l in ("get", "get_mut", "remove", "remove_entry") and len(args) == 2 and is_map_path(path):
+                # the value returned by `m.remove(k)` is the value `m.get(k)` had (the removal itself is an effect on m)
                 return self.get(args[0], args[1])
             if path == GET and len(args) == 2:
                 return self.get(args[0], args[1])
@@ -211,6 +260,37 @@ class Normalizer:
                         cond = ("bin", "&&", cond, self.rewrite(("matches", ("index", x, ("lit", _int(i))), sd)))
                 return cond
             return t
+        if k == "matches" and t[2][0] == "var" and isinstance(t[2][1], str) and desc_kind(t[2]) is None:
+            x, d = t[1], t[2]
+            irrefutable = all(wildish(y[1] if d[3] == "struct" else y) for y in d[2])
+            if irrefutable and x[0] == "ctor" and isinstance(x[1], str) and "::" in x[1] and "::" in d[1]:
+                if x[1].split("::")[-2:] == d[1].split("::")[-2:]:
+                    return ("lit", True)
+                if x[1].split("::")[-2] == d[1].split("::")[-2]:
+                    return ("lit", False)          # another variant of the same enum
+            if irrefutable and x[0] == "ite":
+                a, b = self.rewrite(("matches", x[2], d)), self.rewrite(("matches", x[3], d))
+                T_, F_ = ("lit", True), ("lit", False)
+                if a == T_ and b == F_:
+                    return x[1]
+                if a == F_ and b == T_:
+                    return neg(x[1])
+                if a == b and a in (T_, F_):
+                    return a
+                if b == F_:
+                    return self.rewrite(("bin", "&&", x[1], a))
+                if a == F_:
+                    return self.rewrite(("bin", "&&", neg(x[1]), b))
+            return t
+        if k == "matches" and t[1][0] == "tuple" and t[2][0] == "tuple" and len(t[1][1]) == len(t[2][1]):
+            # a tuple matches a tuple pattern component-wise
+            acc = None
+            for a_, d_ in zip(t[1][1], t[2][1]):
+                c_ = ("lit", True) if wildish(d_) else self.rewrite(("matches", a_, d_))
+                if c_ == ("lit", True):
+                    continue
+                acc = c_ if acc is None else self.rewrite(("bin", "&&", acc, c_))
+            return acc if acc is not None else ("lit", True)
         if k == "matches":
             x, d = t[1], t[2]
             dk = desc_kind(d)
@@ -218,7 +298,7 @@ class Normalizer:
                 x = x[2][0]
                 t = ("matches", x, d)
             if dk in ("some", "none") and x[0] == "call" and isinstance(x[1], str) and last(x[1]) in ("split_first", "first", "last", "split_last") and len(x[2]) == 1:
-                e = ("call", EMPTY, (strip_adapters(x[2][0]),))
+                e = self.rewrite(("call", EMPTY, (strip_adapters(x[2][0]),)))
                 return neg(e) if dk == "some" else e
             if x[0] == "ctor" and last(x[1]) in ("Some", "None", "Ok", "Err") and dk:
                 return ("lit", {"Some": "some", "None": "none", "Ok": "ok", "Err": "err"}[last(x[1])] == dk)
@@ -240,6 +320,14 @@ class Normalizer:
                     return self.rewrite(("bin", "&&", neg(x[1]), b))
                 if a == T_:
                     return self.rewrite(("bin", "||", x[1], b))
+            if dk in ("some", "none", "ok", "err") and x[0] == "collect" and fallible_leaves(x[2], "ok" if dk in ("ok", "err") else "some"):
+                # collect::<Result<C, E>>() of fallible items is Ok  <=>  every item is Ok (same for Option)
+                pos = "ok" if dk in ("ok", "err") else "some"
+                r = ("hof", "all", x[1], self.rewrite(M(x[2], pos)), ())
+                return r if dk == pos else neg(r)
+            if dk in ("some", "none", "ok", "err") and x[0] == "hof" and x[1] == "map" and self.is_option_hof(x):
+                r = self.rewrite(("matches", x[2], d))           # opt.map(f) is Some  <=>  opt is Some
+                return r
             if dk in ("some", "none") and x[0] == "hof" and x[1] == "filter" and self.is_option_hof(x):
                 # opt.filter(|v| c) is Some  <=>  opt is Some && c(v)
                 r = self.rewrite(("bin", "&&", self.rewrite(M(x[2], "some")), x[3]))
@@ -279,6 +367,34 @@ class Normalizer:
             if c == ("lit", False):
                 return b
             return ("ite", c, a, b)
+        if k == "switch" and t[1][0] in ("ite", "ctor") and all(g is None for (d, g), v in t[2]):
+            # a `match` on a value that is itself a case split over constructors: select the arm(s)
+            scrut, arms = t[1], t[2]
+            acc = None
+            decided = True
+            for (d, g), v in reversed(arms):
+                c = ("lit", True) if d[0] == "wild" else self.rewrite(("matches", scrut, d))
+                if c[0] == "matches":
+                    decided = False
+                    break
+                acc = v if (acc is None or c == ("lit", True)) else self.rewrite(("ite", c, v, acc))
+            if decided and acc is not None:
+                return acc
+        if k == "switch" and t[2] and all(g is None for (d, g), v in t[2]) and any(v[0] == "lit" and isinstance(v[1], bool) for _, v in t[2]) \
+                and all(d[0] in ("var", "wild", "lit", "or") for (d, g), v in t[2]):
+            # a `match` that yields a truth value is the predicate "the first arm that matches says true"
+            scrut, arms = t[1], t[2]
+            acc = arms[-1][1]
+            for (d, g), v in reversed(arms[:-1]):
+                c = ("lit", True) if d[0] == "wild" else self.rewrite(("matches", scrut, d))
+                acc = self.bool_ite(c, v, acc)
+            return acc
+        if k == "switch" and t[1][0] == "tuple" and len(t[2]) == 2 and all(g is None for (d, g), v in t[2]) and t[2][0][0][0][0] == "tuple" \
+                and wildish(t[2][1][0][0]):
+            # `match (a, b) { (P, Q) => x, _ => y }`
+            c = self.rewrite(("matches", t[1], t[2][0][0][0]))
+            if not (c[0] == "matches" and c[1] == t[1]):
+                return self.rewrite(("ite", c, t[2][0][1], t[2][1][1]))
         if k == "switch":
             scrut, arms = t[1], t[2]
             # two-armed Option / Result match with variant-only patterns
@@ -298,6 +414,9 @@ class Normalizer:
             name, recv, body = t[1], t[2], t[3]
             if name == "any":
                 return neg(("hof", "all", recv, neg(body), t[4] if len(t) > 4 else ()))
+            if name in ("ok_or_else",) and not any(y == ("proj", recv, SOME, 0) for y in _sub(body)):
+                # x.ok_or_else(|| e)  ==  if let Some(v) = x { Ok(v) } else { Err(e) }
+                return self.rewrite(("ite", self.rewrite(M(recv, "some")), ("ctor", OK, (self.proj(recv, SOME, 0),)), ("ctor", "std::prelude::v1::Err", (body,))))
             if name in ("is_some_and", "is_ok_and"):
                 return self.rewrite(("bin", "&&", self.rewrite(M(recv, "some" if name == "is_some_and" else "ok")), body))
             if name == "is_none_or":
@@ -311,6 +430,10 @@ class Normalizer:
             return t
         if k == "elem":
             c = t[1]
+            x = index_range_of(strip_adapters(c))
+            if x is not None:
+                # `for i in 0..x.len()`: i is the counter of an enumeration of x
+                return ("tproj", ("elem", ("call", "std::iter::Iterator::enumerate", (x,))), 0)
             c2 = strip_adapters(c)
             if c2[0] == "hof" and c2[1] == "map":
                 return c2[3]
@@ -323,6 +446,10 @@ class Normalizer:
             return t
         if k == "collect" and len(t) == 3:
             src, body = t[1], t[2]
+            x = index_range_of(strip_adapters(src))
+            if x is not None:
+                return self.rewrite(("collect", x, body))       # one item per index of x == one item per element of x
+
             if body[0] == "tuple" and len(body[1]) == 2:
                 # a collection of (key, value) pairs is the relation { key -> value }, however it is built
                 return ("collectmap", src, ("lit", True), body[1][0], body[1][1])
@@ -339,8 +466,13 @@ class Normalizer:
             return ("proj", t[1], SOME, 0) if True else t
         if k == "proj":
             base, variant, idx = t[1], t[2], t[3]
-            if base[0] == "hof" and base[1] in ("find",) and last(variant) == "Some" and idx == 0:
+            if base[0] == "hof" and base[1] in ("find",) and last(variant) == "Some" and idx == 0 \
+                    and strip_adapters(base[2])[0] not in ("array", "vec"):
+                # (a search in a table of literals is kept: it folds to the entry once the key is known)
                 return self.rewrite(("elem", base[2]))
+            if base[0] == "collect" and last(variant) in ("Ok", "Some") and idx == 0 and fallible_leaves(base[2], last(variant).lower()):
+                # the collection inside a successful collect::<Result<C, E>>(): the payloads of the items
+                return ("collect", base[1], self.rewrite(("proj", base[2], variant, 0)))
             return self.proj(base, variant, idx)
         if k == "tproj" and len(t) == 3 and t[1][0] == "call" and isinstance(t[1][1], str) and last(t[1][1]) == "split_at" and len(t[1][2]) == 2 and str(t[2]) in ("0", "1"):
             x, i = strip_adapters(t[1][2][0]), t[1][2][1]
@@ -360,6 +492,11 @@ class Normalizer:
             return t
         if k == "index":
             base, idx = t[1], t[2]
+            if idx[0] == "tproj" and str(idx[2]) == "0" and idx[1][0] == "elem":
+                # x[i] with i the counter of an enumeration of x (`for i in 0..x.len()`, or enumerate()) is the enumerated element
+                src = strip_adapters(idx[1][1])
+                if src[0] == "call" and last(src[1]) == "enumerate" and len(src[2]) == 1 and strip_adapters(src[2][0]) == strip_adapters(base):
+                    return self.rewrite(("elem", strip_adapters(base)))
             # x[a..][k] == x[a + k];  x[a..][b..] == x[a + b..]
             if base[0] == "index" and base[2][0] == "struct" and last(base[2][1]) == "RangeFrom":
                 a = dict(base[2][2]).get("start")
@@ -449,6 +586,31 @@ class Normalizer:
             return ("ctor", SOME, (m[2][2][1],))
         return ("call", GET, (m, key))
 
+    def bool_ite(self, c, a, b):
+        """if c { a } else { b } for truth values, as a Boolean term."""
+        T_, F_ = ("lit", True), ("lit", False)
+        isT = lambda x: x[0] == "lit" and x[1] is True          # noqa: E731
+        isF = lambda x: x[0] == "lit" and x[1] is False         # noqa: E731
+        if isT(c):
+            return a
+        if isF(c):
+            return b
+        if a == b:
+            return a
+        if isT(a) and isF(b):
+            return c
+        if isF(a) and isT(b):
+            return neg(c)
+        if isT(a):
+            return self.rewrite(("bin", "||", c, b))
+        if isF(a):
+            return self.rewrite(("bin", "&&", neg(c), b))
+        if isT(b):
+            return self.rewrite(("bin", "||", neg(c), a))
+        if isF(b):
+            return self.rewrite(("bin", "&&", c, a))
+        return ("ite", c, a, b)
+
     def is_option_hof(self, x):
         """The closure of this combinator receives the payload of an Option / Result (not the element of an iterator)."""
         payload = ("proj", x[2], SOME, 0)
@@ -480,8 +642,17 @@ class Normalizer:
             return base[2][idx]
         if base[0] == "hof" and base[1] == "filter" and last(variant) == "Some" and idx == 0 and self.is_option_hof(base):
             return self.proj(base[2], variant, idx)
+        if base[0] == "hof" and base[1] == "map" and last(variant) in ("Some", "Ok") and idx == 0 and self.is_option_hof(base):
+            return base[3]                 # the payload of opt.map(f) is f(payload of opt) - the body is already written over it
         if base[0] == "ite" and last(variant) in ("Some", "Ok", "Err", "None") and False:
             pass
+        if base[0] == "ite" and last(variant) not in ("Some", "Ok", "Err", "None") and isinstance(variant, str) and "::" in variant:
+            a, b = base[2], base[3]
+            other = lambda y: y[0] == "ctor" and isinstance(y[1], str) and y[1].split("::")[-2:-1] == variant.split("::")[-2:-1] and last(y[1]) != last(variant)      # noqa: E731
+            if other(a) and not other(b):
+                return self.proj(b, variant, idx)
+            if other(b) and not other(a):
+                return self.proj(a, variant, idx)
         if base[0] == "ite" and last(variant) in ("Some", "Ok", "Err", "None"):
             # the payload of variant V of `if c { Other(..) } else { x }` can only come from x
             a, b = base[2], base[3]
@@ -497,6 +668,20 @@ class Normalizer:
                 return ("tuple", (("index", x, ("lit", _int(0))), ("index", x, ("struct", "std::ops::RangeFrom", (("start", ("lit", _int(1))),)))))
             if l == "first":
                 return ("index", x, ("lit", _int(0)))
+            if l in ("last", "split_last"):
+                sx = strip_adapters(x)
+                lastel = None
+                if sx[0] == "index" and sx[2][0] == "struct" and last(sx[2][1]) == "RangeTo":
+                    # the last element of x[..i] is x[i - 1]
+                    e_ = dict(sx[2][2]).get("end")
+                    if e_ is not None:
+                        lastel = self.rewrite(("index", sx[1], self.rewrite(("bin", "-", e_, ("lit", _int(1))))))
+                        if l == "split_last":
+                            return ("tuple", (lastel, self.rewrite(("index", sx[1], ("struct", "std::ops::RangeTo", (("end", self.rewrite(("bin", "-", e_, ("lit", _int(1))))),))))))
+                if lastel is None and l == "last":
+                    lastel = ("index", sx, ("bin", "-", ("call", "#len", (sx,)), ("lit", _int(1))))
+                if lastel is not None and l == "last":
+                    return lastel
             if l in CLONES:
                 return ("call", base[1], (self.proj(x, variant, idx),))
         return ("proj", base, variant, idx)
@@ -525,6 +710,15 @@ class Normalizer:
                     if t == ("lit", True) and pol or t == ("lit", False) and not pol:
                         continue
                     out.append(("if", t, pol, c[4] if len(c) > 4 else None))
+                    if c[3] and len(c) > 7:
+                        # the arm is only reached when no earlier guarded arm was taken
+                        for d_, g_ in c[7]:
+                            t2 = self.norm(("bin", "&&", ("matches", scrut, d_), g_))
+                            pol2 = False
+                            while t2[0] == "not":
+                                t2, pol2 = t2[1], not pol2
+                            if not (t2[0] == "lit" and isinstance(t2[1], bool)):
+                                out.append(("if", t2, pol2, c[4] if len(c) > 4 else None))
                 else:
                     c2 = tuple(c[2:])
                     if len(c) > 7 and c[7]:
